@@ -8,8 +8,9 @@ use quote::{format_ident, quote};
 use crate::{
     convert::STD_NUM_NONZERO_PREFIX,
     type_entry::{
-        EnumTagType, StructProperty, StructPropertyRename, TypeEntry, TypeEntryDetails,
-        TypeEntryEnum, TypeEntryNative, TypeEntryNewtype, TypeEntryStruct, Variant, VariantDetails,
+        EnumTagType, StructProperty, StructPropertyRename, StructPropertyState, TypeEntry,
+        TypeEntryDetails, TypeEntryEnum, TypeEntryNative, TypeEntryNewtype, TypeEntryStruct,
+        Variant, VariantDetails, WrappedValue,
     },
     TypeId, TypeSpace,
 };
@@ -410,6 +411,13 @@ fn value_for_struct_props(
         if let Some(value) = map.get(name) {
             let type_entry = type_space.id_to_entry.get(&prop.type_id).unwrap();
             let prop_value = type_entry.output_value(type_space, value, scope)?;
+
+            Some(quote! { #name_ident: #prop_value })
+        } else if let StructPropertyState::Default(WrappedValue(default)) = &prop.state {
+            // A member the value leaves out takes its own default, as it
+            // would when the value is deserialized.
+            let type_entry = type_space.id_to_entry.get(&prop.type_id).unwrap();
+            let prop_value = type_entry.output_value(type_space, default, scope)?;
 
             Some(quote! { #name_ident: #prop_value })
         } else {
